@@ -1,43 +1,76 @@
 -------------------------- MODULE Concurrency_Trace --------------------------
-(* Validation of a recorded stress batch (C20).  A batch is one trace: Start(batch), per      *)
-(* transaction TxStart/TxEnd in completion order, then Quiesce with the measured deltas, and   *)
-(* one Race event per distinct data-race report of the Go race detector (never allowed).       *)
+(* Validation of a recorded stress batch (C20).  A batch is one trace: Start(batch), per          *)
+(* transaction TxStart/TxEnd in completion order (AT, XA, TCC and mixed transactions; sessions to   *)
+(* the coordinator are lost and opened meanwhile: Session), the hot-spot phase (Hot), then Quiesce  *)
+(* with the measured deltas.  Every distinct data-race report of the Go race detector is a trace    *)
+(* of its own (Start, Race, End) and a run-time crash of the workload is one (Start, Crash, ..):    *)
+(* neither is ever a behaviour of the specification.                                                *)
 EXTENDS Integers, Sequences, FiniteSets, TLC, Json, IOUtils
 
-VARIABLES l, s0, started, ended, quiesced
+VARIABLES l, s0, started, ended, quiesced, live, hot
 
 Trace  == ndJsonDeserialize(IOEnv.TRACE_FILE)
 Starts == {i \in 1..Len(Trace) : Trace[i].k = 1}
 EndOf(s) == s + Trace[s].n - 1
 Max(a, b) == IF a > b THEN a ELSE b
-vars == <<l, s0, started, ended, quiesced>>
+vars == <<l, s0, started, ended, quiesced, live, hot>>
+
+Has(e, f) == f \in DOMAIN e
 
 TraceInit ==
   \E s \in Starts :
     /\ s0 = s /\ l = s + 1 /\ Trace[s].ev = "Start"
-    /\ started = 0 /\ ended = 0 /\ quiesced = FALSE
+    /\ started = {} /\ ended = {} /\ quiesced = FALSE /\ hot = FALSE
+    /\ live = (IF Has(Trace[s], "live") THEN Trace[s].live ELSE 1)
     /\ TLCSet(Trace[s].t, s + 1)
 
 IsEv(e) == /\ l <= EndOf(s0) /\ Trace[l].ev = e /\ l' = l + 1 /\ s0' = s0
 
-TTxStart == IsEv("TxStart") /\ started' = started + 1 /\ UNCHANGED <<ended, quiesced>>
-\* a transaction ends with a definite outcome (never a panic, never hung)
+TxKinds == {"at", "xa", "tcc", "mix"}
+
+TTxStart == /\ IsEv("TxStart") /\ ~quiesced
+            /\ Trace[l].id \notin started
+            /\ Has(Trace[l], "kind") => Trace[l].kind \in TxKinds
+            /\ started' = started \cup {Trace[l].id} /\ UNCHANGED <<ended, quiesced, live, hot>>
+\* a transaction ends with a definite outcome: committed, rolled back because the business said so, or
+\* failed (lock conflict, lock wait, a request that died with its session) - never a panic, never hung
 TTxEnd   == /\ IsEv("TxEnd") /\ Trace[l].outcome \in {"committed", "rolledback", "failed"}
-            /\ ended' = ended + 1 /\ UNCHANGED <<started, quiesced>>
-\* quiescence: every transaction terminated; nothing borrowed is still out
-TQuiesce == /\ IsEv("Quiesce")
+            /\ Trace[l].id \in started \ ended
+            /\ ended' = ended \cup {Trace[l].id} /\ UNCHANGED <<started, quiesced, live, hot>>
+\* session churn underneath the traffic; the workload never takes the last session away
+TSession == /\ IsEv("Session") /\ ~quiesced
+            /\ \/ Trace[l].op = "open" /\ live' = live + 1
+               \/ Trace[l].op = "lose" /\ live > 1 /\ live' = live - 1
+            /\ Trace[l].live = live'
+            /\ UNCHANGED <<started, ended, quiesced, hot>>
+\* the hot-spot phase: every loop over the shared components returned, none panicked
+THot     == /\ IsEv("Hot") /\ ~quiesced /\ ~hot
+            /\ Trace[l].hung = 0 /\ Trace[l].panics = 0 /\ Trace[l].iters >= Trace[l].workers
+            /\ hot' = TRUE /\ UNCHANGED <<started, ended, quiesced, live>>
+\* quiescence: every transaction terminated; nothing borrowed is still out; nothing owed is still due
+TQuiesce == /\ IsEv("Quiesce") /\ ~quiesced /\ hot
             /\ ended = started
             /\ Trace[l].hung = 0
-            /\ Trace[l].inuse = 0            \* sql.DB.Stats().InUse of every shared handle
-            /\ Trace[l].connleak = 0         \* physical connections opened beyond the pools' idle limits
+            /\ Trace[l].inuse = 0            \* sql.DB.Stats().InUse of every pool (handles and the resources' inner pools)
+            /\ Trace[l].connleak = 0         \* physical connections on the AT / fence servers that no pool owns (vs. before the batch)
             /\ Trace[l].intx = 0             \* connections left inside a transaction / holding locks
             /\ Trace[l].futures = 0          \* pending request futures
             /\ Trace[l].goroutines <= 0      \* goroutines alive beyond the level before the batch
-            /\ quiesced' = TRUE /\ UNCHANGED <<started, ended>>
-TEnd     == IsEv("End") /\ quiesced /\ UNCHANGED <<started, ended, quiesced>>
-\* (no action for "Race": a data-race report is never a behaviour of the specification)
+            /\ Trace[l].undoleft = 0         \* undo rows (log_status 0) of finished transactions; the marker rows a
+                                             \* repeated rollback leaves on purpose (undomarkers) are not a leak
+            /\ Trace[l].xaheld = 0           \* XA connections still held by the resource manager
+            /\ Trace[l].xaprepared = 0       \* XA branches left PREPARED in the databases
+            /\ Trace[l].xaconns = 0          \* connections left in an XA state
+            /\ Trace[l].xaconnleak = 0       \* physical connections on the XA servers that no pool owns
+            /\ Trace[l].tccnop2 = 0          \* TCC branches of decided transactions whose second phase never ran
+            /\ Trace[l].tccextra = 0         \* TCC branches whose methods ran more often than delivered, or the wrong one
+            /\ Trace[l].fencedup = 0         \* fenced branches whose business effect is not exactly-once
+            /\ Trace[l].fencetx = 0          \* fence transactions left open
+            /\ quiesced' = TRUE /\ UNCHANGED <<started, ended, live, hot>>
+TEnd     == IsEv("End") /\ quiesced /\ UNCHANGED <<started, ended, quiesced, live, hot>>
+\* (no action for "Race" and "Crash": a data-race report or a crash is never a behaviour of the specification)
 
-TraceNext == TTxStart \/ TTxEnd \/ TQuiesce \/ TEnd
+TraceNext == TTxStart \/ TTxEnd \/ TSession \/ THot \/ TQuiesce \/ TEnd
 TraceSpec == TraceInit /\ [][TraceNext]_vars
 
 HighWater == TLCSet(Trace[s0].t, Max(TLCGet(Trace[s0].t), l))
